@@ -243,13 +243,13 @@ theorem fault_unknown_ref_closed (env : Validate.Env) (cols : List (Str × Json)
 /-- the hypothesis "no definition in the entry" is now a statement about the parsed entry -/
 theorem fault_pound_value_closed (env : Validate.Env) (cols : List (Str × Json)) (n : Str) (kvs : List (Str × Json)) (s : Str)
     (hne : anyError (earlyP (.obj cols)) = false) (hm : (n, .obj kvs) ∈ cols) (hl : lookup HED kvs = some (.str s))
-    (hc : countHash s ≠ 1) (hd : Closed.defCount env s = 0) :
+    (hc : treeHash (sidecarOracle env) s ≠ 1) (hd : Closed.defCount env s = 0) :
     ∃ out, validateClosed env .fixed (.obj cols) = .ok out ∧ mk .poundValue (some n) none ∈ out :=
   ⟨_, validate_eq_closed env _, fault_pound_value _ cols n kvs s hne hm hl hc hd⟩
 
 theorem fault_pound_category_closed (env : Validate.Env) (cols : List (Str × Json)) (n : Str) (kvs vs : List (Str × Json))
     (k s : Str) (hne : anyError (earlyP (.obj cols)) = false) (hm : (n, .obj kvs) ∈ cols)
-    (hl : lookup HED kvs = some (.obj vs)) (hkv : (k, .str s) ∈ vs) (hc : countHash s ≠ 0)
+    (hl : lookup HED kvs = some (.obj vs)) (hkv : (k, .str s) ∈ vs) (hc : treeHash (sidecarOracle env) s ≠ 0)
     (hd : Closed.defCount env s = 0) :
     ∃ out, validateClosed env .fixed (.obj cols) = .ok out ∧
       mk .poundCategory (some n) (keyCtx (vs.filterMap strOf) k) ∈ out :=
